@@ -153,13 +153,17 @@ def _rearrange_buildable_args(
   value = copy.copy(value)
   old_arguments = dict(value.__arguments__)
   new_arguments = {}
-  for param_name, param in value.__signature_info__.parameters.items():
+  for index, (param_name, param) in enumerate(
+      value.__signature_info__.parameters.items()
+  ):
     if param.kind in {param.VAR_KEYWORD, param.VAR_POSITIONAL}:
       continue
-    elif param_name in old_arguments:
-      new_arguments[param_name] = old_arguments.pop(param_name)
+    # Positional-only arguments are stored under their index, not their name.
+    key = index if param.kind == param.POSITIONAL_ONLY else param_name
+    if key in old_arguments:
+      new_arguments[key] = old_arguments.pop(key)
     elif insert_unset_sentinels:
-      new_arguments[param_name] = _UnsetValue(param)
+      new_arguments[key] = _UnsetValue(param)
   new_arguments.update(old_arguments)  # Add in kwargs, in current order.
   object.__setattr__(value, '__arguments__', new_arguments)
   return value
